@@ -75,13 +75,23 @@ def check_slices(env, m, what):
             raise
         except Exception as e:
             env.fail(f"{what}: indexing by a term name fails", {"exc": type(e).__name__, "site": core.repo_site(e)})
-    try:
-        m["no such term"]
-        env.fail(f"{what}: unknown term name accepted")
-    except ValueError:
-        env.ok(f"{what}: unknown term name refused")
-    except Exception as e:
-        env.fail(f"{what}: unknown term name: wrong exception", {"exc": type(e).__name__})
+    # names that are not term names: a foreign string, and near misses of every real name (pieces swapped
+    # across the bar, a character dropped / added, blanks removed)
+    unknown = ["no such term"]
+    for name in m.terms:
+        cands = [name[:-1], name + "x", name.replace(" ", "")]
+        if "|" in name:
+            e, g = name.split("|", 1)
+            cands.append(f"{g}|{e}")
+        unknown += [c for c in cands if c and c not in m.terms and c not in unknown]
+    for bad in unknown:
+        try:
+            m[bad]
+            env.fail(f"{what}: unknown term name accepted", {"name": bad})
+        except ValueError:
+            env.ok(f"{what}: unknown term name refused")
+        except Exception as e:
+            env.fail(f"{what}: unknown term name: wrong exception", {"exc": type(e).__name__, "name": bad})
 
 
 def check_print(env, obj, what, shapes):
@@ -128,6 +138,17 @@ def check_design(env, dm, label, group_labels_ok=True):
         r, c, g = dm
         env.prove(r is dm.response and c is dm.common and g is dm.group, f"{label}tuple unpacking gives response, common, group")
         check_print(env, dm, f"{label}DesignMatrices", shapes)
+        # ... and each shape is reported for the member it belongs to, absent members are not listed
+        try:
+            lines = str(dm).splitlines()
+        except Exception:  # noqa -- reported by check_print
+            lines = []
+        for title, member in (("Response", dm.response), ("Common", dm.common), ("Group-specific", dm.group)):
+            mine = [l for l in lines if l.strip().startswith(title + ":")]
+            if member is None:
+                env.prove(not mine, f"{label}DesignMatrices: no line for an absent member")
+            else:
+                env.prove(len(mine) == 1 and str(tuple(np.asarray(member.design_matrix).shape)) in mine[0], f"{label}DesignMatrices: every member's shape on its own line")
 
 
 def check_common(env, m, label):
